@@ -89,7 +89,31 @@ def prop_C11(run):
     run.rules_run += ["TAB-fmt OutputFormat variant -> formatter(constants), wrappers, panic-guarded parameter domains, divisors nonzero"]
 
 
+def reach_roots(run):
+    roots = [r for r in ROOTS if run.prog.fn(r)]
+    run.check(len(roots) == len(ROOTS), "ROOTS", "ROOTS|entry-points", "-", "entry points found: %s" % roots,
+              "entry points missing: %s" % sorted(set(ROOTS) - set(roots)))
+    return run.prog.reachable_from(roots)
+
+
+def prop_C03(run):
+    import rules_err
+    reach = reach_roots(run)
+    n1 = rules_err.err1(run, reach)
+    run.floor("ERR1", "reachable functions returning Result<_, ()>", n1, 200)
+    rules_err.err3(run)
+    rules_err.err2_top(run)
+    rules_err.err4(run)
+    n5 = rules_err.err5(run, reach)
+    run.floor("ERR5", "fallible call sites", n5, 300)
+    np_ = rules_err.pair(run, reach)
+    run.floor("PAIR", "functions pushing parents", np_, 12)
+    run.rules_run += ["ERR1 Err => message pushed (interprocedural path-state search)", "ERR3 Unresolved/None in a last pass => message pushed",
+                      "ERR2-top output stored only behind a stop_at_errors barrier, nothing fails after", "ERR4 driver writes only behind the output test; exit status follows the verdict", "ERR5 no Result<_,()> dropped", "PAIR push_parent/pop_parent balance"]
+
+
 PROPS = {
+    "C03": prop_C03,
     "C11": prop_C11,
     "C18": prop_C18,
     "C10": prop_C10,
